@@ -206,7 +206,9 @@ def battery_cases():
             out.append(("type", f"{a}fn({P}) -> u8", f"{b}fn(i32) -> u8", "battery:fn-abi/unsafety"))
     refs = ["&{}", "&mut {}", "&'a {}", "&'a mut {}", "&'b {}", "&'static {}", "*const {}", "*mut {}", "[{}]", "[{}; 2]", "[{}; 3]",
             "({},)", "({}, {})", "({})", "Vec<{}>", "Box<{}>", "m::W1<{}>", "::m::W1<{}>", "W1<{}>", "dyn Tr<{}>", "dyn Tr<{}> + Send",
-            "dyn Tr<{}> + 'a", "dyn Tr<{}> + 'b", "dyn for<'x> Tr<{}>", "fn() -> {}", "fn({})", "fn({}, ...)", "<{} as Tr>::Out", "<{} as Tr2>::Out",
+            "dyn Tr<{}> + 'a", "dyn Tr<{}> + 'b", "dyn for<'x> Tr<{}>", "dyn Send + Tr<{}>", "dyn Tr<{}> + Send + Sync", "fn() -> {}", "fn({})", "fn({}, ...)",
+            "fn()", "fn() -> ()", "fn() -> ({}, u8)", "fn() -> ({},)", "fn({}) -> ()", "fn({}) -> ({}, {})", "fn(u8)", "fn(u8) -> (u8, u8)", "fn() -> !",
+            "impl Tr<{}>", "impl Tr<{}> + Send", "&dyn Tr<{}>", "Box<dyn Tr<{}> + Send>", "Box<dyn Tr<{}>>", "<{} as Tr>::Out", "<{} as Tr2>::Out",
             "<{} as Tr>::Out2", "Tr<Out = {}>", "[u8; {{ {} }}]"]
     # impl-group ids: the trait arguments and the self type share their parameters
     P1 = PARAM_PREFIX + "1"
